@@ -32,6 +32,7 @@ import (
 	"go.starlark.net/starlark"
 )
 
+var fAs = flag.String("as", "C08", "report under this property id; with C16 only the rebuild-reason oracle (C16's last clause) is reported")
 var fFP = flag.String("fingerprint-of", "", "internal: print the fingerprint hash of the project in this directory and exit")
 
 type edit struct {
@@ -275,7 +276,12 @@ func differingKeys(a, b starlark.Value) ([]string, error) {
 		}
 		eq, err := starlark.EqualDepth(va, vb, 2000)
 		if err != nil {
-			return nil, err
+			// self-referential data: compare the two parts through two independent encodings
+			var xa, xb bytes.Buffer
+			if e1, e2 := pickle.NewEncoder(&xa, nil).Encode(va), pickle.NewEncoder(&xb, nil).Encode(vb); e1 != nil || e2 != nil {
+				return nil, err
+			}
+			eq = bytes.Equal(xa.Bytes(), xb.Bytes())
 		}
 		if !eq {
 			out = append(out, k)
@@ -334,7 +340,8 @@ func main() {
 		fmt.Println("FP", h)
 		os.Exit(0)
 	}
-	r := vlib.Start("C08")
+	r := vlib.Start(*fAs)
+	reasonsOnly := *fAs == "C16"
 	fs := features()
 	var progs []program
 	for _, f := range fs {
@@ -346,8 +353,9 @@ func main() {
 			if fs[i].Lib != "" && fs[j].Lib != "" {
 				continue // both define lib.dawn
 			}
-			if !r.Thorough() && (i*7+j)%2 != 0 {
-				continue // quick: half of the pairs
+			cyc := strings.Contains(fs[i].Name, "cyclic") || strings.Contains(fs[j].Name, "cyclic")
+			if !r.Thorough() && (i*7+j)%2 != 0 && !cyc {
+				continue // quick: half of the pairs (all pairs that involve self-referential data)
 			}
 			progs = append(progs, compose(fs[i], fs[j]))
 			npairs++
@@ -359,13 +367,16 @@ func main() {
 		if strings.Contains(output, "stack overflow") || strings.Contains(output, "goroutine stack exceeds") {
 			cls = "stack-overflow"
 		}
-		r.Violation("C08:fatal:"+cls, fmt.Sprintf("the process died (%s) while fingerprinting program %s", cls, p.Name), replay{p.Name, p.Files, "", firstLines(output, 6)})
+		r.Violation(*fAs+":fatal:"+cls, fmt.Sprintf("the process died (%s) while fingerprinting program %s", cls, p.Name), replay{p.Name, p.Files, "", firstLines(output, 6)})
 	}
 	r.Distribute(len(progs), func(i int) {
 		p := progs[i]
 		root := filepath.Join(r.Scratch, "proj")
 		viol := func(sig, what, ed string) {
-			r.Violation("C08:"+sig, fmt.Sprintf("%s [program %s%s]", what, p.Name, map[bool]string{true: "; edit " + ed, false: ""}[ed != ""]), replay{p.Name, p.Files, ed, what})
+			if reasonsOnly && !strings.HasPrefix(sig, "reason-") {
+				return
+			}
+			r.Violation(*fAs+":"+sig, fmt.Sprintf("%s [program %s%s]", what, p.Name, map[bool]string{true: "; edit " + ed, false: ""}[ed != ""]), replay{p.Name, p.Files, ed, what})
 		}
 		r.Add("programs", 1)
 		p.write(root, p.Files)
